@@ -18,6 +18,7 @@ def main():
         rp = boot()
         from harness import builders
         from harness import sched_sim                  # noqa: registers builders
+        from harness import bf_sim                     # noqa
         fn = builders.BUILDERS.get(case['function'])
         if fn is None:
             out = dict(confirmed=None,
